@@ -26,6 +26,9 @@ type ProgCfg struct {
 	Decorate bool
 	// NoFiles: no file-ish types at all.
 	NoFiles bool
+	// VDR: file-rich stage signatures, volatile / strict / retain
+	// annotations on stages, calls and pipelines.
+	VDR bool
 	// Values config for literals.
 	Values ValueCfg
 	// MapOnlyInTop: map calls appear only in the body of the pipeline the
@@ -257,6 +260,27 @@ func GenProgram(t *rapid.T, cfg *ProgCfg) *Program {
 }
 
 func (g *pgen) genStageType(label string) Ty {
+	if g.cfg.VDR && rapid.IntRange(0, 2).Draw(g.t, label+"FileIsh") == 0 {
+		bases := append([]string{"file", "path", "string"}, g.u.FileTypes...)
+		for _, st := range g.u.Structs {
+			if g.u.FileKind(Ty{Base: st.Name}) == 2 {
+				bases = append(bases, st.Name)
+			}
+		}
+		ty := Ty{Base: rapid.SampledFrom(bases).Draw(g.t, label+"FileBase")}
+		switch rapid.IntRange(0, 5).Draw(g.t, label+"FileShape") {
+		case 3:
+			ty.Arr = 1
+		case 4:
+			ty.Map = 1
+		case 5:
+			ty.Arr = 1
+			if rapid.Bool().Draw(g.t, label+"FileMapArr") {
+				ty.Map = 1
+			}
+		}
+		return ty
+	}
 	// bias towards simple types with a fair share of collections
 	switch rapid.IntRange(0, 9).Draw(g.t, label+"Kind") {
 	case 0, 1, 2:
@@ -340,6 +364,16 @@ func (g *pgen) genStage(i int) *Stage {
 			}
 			for j, k := 0, rapid.IntRange(0, 4).Draw(t, "nRetain"); j < k; j++ {
 				s.Retain = append(s.Retain, rapid.SampledFrom(names).Draw(t, "retain"))
+			}
+		}
+	}
+	if g.cfg.VDR {
+		if v := rapid.SampledFrom([]string{"", "", "", "strict", "false"}).Draw(t, "stageVolatile"); v != "" {
+			s.Res = &Resources{Volatile: v}
+		}
+		for _, o := range s.Outs {
+			if g.prog.FileKind(o.T) > 0 && rapid.IntRange(0, 3).Draw(t, "retainOut") == 0 {
+				s.Retain = append(s.Retain, o.Name)
 			}
 		}
 	}
@@ -656,6 +690,10 @@ func (g *pgen) genPipeline(idx int, isTop bool) {
 		}
 		used[callee]++
 		g.genCallBindings(c)
+		if g.cfg.VDR && g.prog.Stage(callee) != nil {
+			// (only stage calls may carry the volatile tag)
+			c.Volatile = rapid.IntRange(0, 2).Draw(t, "volatileCall") != 0
+		}
 		pl.Calls = append(pl.Calls, c)
 	}
 	// outputs
@@ -680,6 +718,13 @@ func (g *pgen) genPipeline(idx int, isTop bool) {
 		name := fmt.Sprintf("out%d", i)
 		pl.Outs = append(pl.Outs, Param{Name: name, T: g.widen(s.t)})
 		pl.Ret = append(pl.Ret, Binding{Param: name, E: s.ref})
+	}
+	if g.cfg.VDR {
+		for _, s := range callSources {
+			if g.prog.FileKind(s.t) > 0 && len(s.ref.Path) == 0 && rapid.IntRange(0, 5).Draw(t, "plRetain") == 0 {
+				pl.Retain = append(pl.Retain, s.ref)
+			}
+		}
 	}
 	// every input must be used: bind unused inputs into a return value
 	usedIn := map[string]bool{}
